@@ -18,7 +18,7 @@ def showTerm : Term → String
   | .maxTime => "maxTime" | .ftol => "ftol" | .xtol => "xtol" | .kkt => "kkt"
 
 def showOutcome : Outcome → String
-  | .served => "served" | .computed => "computed" | .stop t => "stop:" ++ showTerm t
+  | .served => "served" | .computed => "computed" | .raised => "raised" | .stop t => "stop:" ++ showTerm t
 
 def summary (st : St) : String :=
   s!"cur={st.current} len={st.db.length} nonempty={nonEmptyCount st.db} vcalls={(st.calls.filter (fun c => c.kind == .value)).length} jcalls={(st.calls.filter (fun c => c.kind == .jacobian)).length}"
@@ -38,7 +38,7 @@ def step' (d : D) (line : String) : D × String :=
       let kind := if k == "j" then Kind.jacobian else Kind.value
       let tolStop := if tol == "ftol" then some Term.ftol else if tol == "xtol" then some Term.xtol
         else if tol == "kkt" then some Term.kkt else none
-      let r : Req := { name := n, kind := kind, key := key, isNan := nan == "1", timeUp := tu == "1", tolStop := tolStop }
+      let r : Req := { name := n, kind := kind, key := key, isNan := nan == "1", raises := nan == "2", timeUp := tu == "1", tolStop := tolStop }
       let (st', o) := step d.cfg d.st r
       ({ d with st := st' }, showOutcome o ++ " " ++ summary st')
     | none => (d, "bad-op")
